@@ -40,6 +40,53 @@ CLAIMS.update({
     note='Reference-valued IRIs, blank-node labels and reference-valued language tags are copied raw by the code: recorded findings (Findings/C05.v). Model/NQuads.v omits UCHAR and quoted triples.',
     technique='Coq proofs over all strings + differential correspondence + strict-parser round-trip oracle', ref='7 C05'),
 })
+CLAIMS.update({
+ 'C04': dict(text='Proof (Coq) + correspondence, partial. Theorems: the library result is a union over groups, invariant under any assignment / order of groups (union_schedule_invariant); under the modelled CPython 3.12 '
+    'write policy (TextIOWrapper pending chunk + BufferedWriter, 8192 bytes) one f.write per statement line gives raw write(2) payloads made of whole lines only, for all line counts and lengths (payloads_whole_lines); any '
+    'interleaving of atomic appends holds exactly the payloads of all writers (interleaving_preserves_payloads). Correspondence: an LD_PRELOAD shim logs every write(2) to the output files for 1/2/4(/32) processes: complete, '
+    'ending in a line feed, sizes equal to the model prediction; forced schedules keep the multiset of lines; library result independent of number_of_processes.',
+    note='Partial: the write policy is a model of CPython, not of /repo; atomicity of write(2) on O_APPEND is assumed; schedules are sampled (delays), not enumerated; multiprocessing is not modelled.',
+    technique='Coq proofs (union over any schedule; write-policy invariant; merge permutation) + write(2)-level correspondence', ref='7 C04'),
+ 'C06': dict(text='Correspondence over 17 source kinds (CSV, TSV, JSON null/absent, nested JSON, XML absent/empty, Parquet, Feather, ORC, Excel, DuckDB view, SQLite table/query, DataFrame, dict, JSON string) x na_values settings x NULL positions: '
+    'implementation vs the Engine model (Model/Data.v arrive + preprocess) vs the Spec (a NULL suppresses exactly the statements that reference it), plus a scan for None/nan/<NA> words not in the data. Coq: null_filter_exact (C01) states the filter; '
+    'the per-kind reader behaviour is modelled, not proved.',
+    note='Two genuine defects found by this check were repaired (fix: commits 52bd578, ecec88a).', technique='differential correspondence implementation / extracted Coq Engine model / extracted Coq Spec', ref='7 C06', category='other'),
+ 'C07': dict(text='Correspondence: child x parent tables with duplicate / NULL / ambiguous keys, 1-3 conditions, same / other / equal-content sources, permuted self-conditions: implementation vs Engine model (merge_data, parent projection, self-join elimination) vs the Spec join (list comprehension).',
+    note='Known finding: self-join elimination (NULL / non-unique key). Theorems relating merge_data to the Spec join are not yet in Props/C07.v.', technique='differential correspondence implementation / extracted Coq Engine model / extracted Coq Spec', ref='7 C07', category='other'),
+ 'C08': dict(text='Correspondence: 0-3 constant / template / reference graph maps on subject maps and predicate-object maps, rr:defaultGraph, NULL graph values, classes, both formats; every line incl. the fourth component against the Engine model and the Spec graph placement (graph_terms).',
+    note='Theorems about prepare (class -> POM, subject graphs -> POMs, default graph) not yet in Props/C08.v.', technique='differential correspondence implementation / extracted Coq Engine model / extracted Coq Spec', ref='7 C08', category='other'),
+ 'C09': dict(text='Differential check across spellings of one abstract mapping: vocabulary (RML, legacy RML + R2RML term maps, R2RML with file_path) x shortcut / expanded x rr:class / explicit POM x graph on subject map / on every POM x merged / split POMs x '
+    'Turtle / shuffled N-Triples / RDF-XML / re-serialised prefixed Turtle / .rml extension; all results must be equal (and equal to the Engine model in the canonical spelling).',
+    note='rdflib parsers, SPARQL and the vocabulary rewrites are outside the Coq model; YARRRML is not rendered (not covered).', technique='differential check over spellings (serialisation-level invariance cannot be carried by the model)', ref='7 C09', category='other'),
+ 'C10': dict(text='Differential check: one table of strings delivered in 15 source kinds and through file_path; every result must equal the CSV result and the Engine model (Model/Data.v arrive states what each reader must hand over).',
+    note='The readers are third-party code; no theorem about /repo can carry this. Known findings: DataFrame quote stripping, DuckDB type / dialect detection for tabular views. In-memory sources were repaired (fix: bead264).',
+    technique='differential check over source formats against the reader model', ref='7 C10', category='other'),
+ 'C11': dict(text='Differential check: result(whole table) = result(part 1) + result(part 2) for random cuts, = result(permuted + duplicated rows), for string tables and typed tables (SQLite table/query, JSON, Parquet, Feather, ORC) and for canonicalised datatypes; '
+    'typed cases also against the Engine model (pandas column coercion, float64 rounding) and the Spec.',
+    note='Known finding: column dtype coercion (10 -> 10.0 next to NULL / float). rows_additive theorem not yet in Props/C11.v.', technique='differential check (union over row splits) + correspondence with the Coq reader model', ref='7 C11', category='other'),
+ 'C12': dict(text='Differential check: a document run as one file must equal every dependency-closed layout of its triples maps over files and sections (also with file-relative identifiers), reordering, and the union of its components run alone; a triples map repeated in two sections must be rejected.',
+    note='Genuine defect repaired (fix: c61aea7, duplicate check ran after renumbering).', technique='differential check over document layouts + correspondence with the Coq Engine model / Spec', ref='7 C12', category='other'),
+ 'C13': dict(text='Correspondence: chains of quoted triples maps (depth 1-3, subject / object / both, joins, asserted / non-asserted, NULLs) against the Engine model (expand_tm, quoted branches of mat_rule) and the Spec (subj_terms / tm_triples / obj_terms, unbounded depth).',
+    note='Known finding: repeated joins on one frame fail. Theorems on the expanded rule tree not yet in Props/C13.v.', technique='differential correspondence implementation / extracted Coq Engine model / extracted Coq Spec', ref='7 C13', category='other'),
+ 'C14': dict(text='Correspondence: compositions of 8 built-ins (parameters regenerated from bif_dict) and 5 UDFs over all argument kinds and positions against the Engine model (exec_fnml: inner executions as columns, binding by parameter IRI, null removal, explode) and the Spec (spec_eval), '
+    'all three partitioning modes against each other, and reference contracts of the case-mapping built-ins on Unicode inputs.',
+    note='Two genuine defects repaired (fix: 07bcd78, 8a50972). Known findings: function-valued graph map under N-TRIPLES, rule without references.', technique='differential correspondence implementation / extracted Coq Engine model / extracted Coq Spec + contract oracle', ref='7 C14', category='other'),
+ 'C15': dict(text='Proof (Coq) + correspondence: other datatypes are untouched for every string (other_datatypes_untouched), xsd:boolean lower-casing preserves the truth value (boolean_value_preserved), xsd:dateTime changes exactly the blanks (datetime_blanks_only), '
+    'the float detour of xsd:integer is exact below 2^53 (integer_float_exact_below_2_53); refuted witnesses for rounding / truncation / wrap / abort. materializer._materialize_template is driven on 400 lexical forms x 10 datatypes and compared with the model canon and with a decimal value oracle.',
+    note='Known findings: integer rounds / truncates / wraps / aborts, dateTime blanks, boolean Unicode.', technique='Coq proofs about canon + differential correspondence + value oracle', ref='7 C15'),
+ 'C16': dict(text='Proof (Coq), partial + correspondence: over the state the repository shares with its caller (in-memory sources read by reference), repeated calls return identical results although the DataFrame is rewritten by the first (repeated_calls_identical), '
+    'and a frame without double quotes is left unchanged (caller_frame_unchanged_partial; refuted otherwise). Sequences of 2-7 calls in one process (options, sources, UDF files varied, objects reused) against each call alone in a fresh process; fingerprints of caller objects and hashes of input files.',
+    note='Partial: hidden process state cannot be expressed in a pure Gallina model; it is covered by the differential check only.', technique='Coq proof over the modelled shared state + differential check of call sequences', ref='7 C16'),
+ 'C17': dict(text='Proof (Coq) + correspondence: over the abstract file system (remove targeted files, append per group), after any history of runs every targeted and written file holds exactly the current run\'s lines, a targeted unwritten file does not survive, other files are untouched '
+    '(run_targets_exact, history_targets_exact, cleared_unwritten_absent, other_files_untouched). Histories of 1-4 CLI runs (formats, modes, output_file / output_dir incl. nested and dotted names, dying runs, pre-existing files) are compared file by file with the model.',
+    note='Stale files of other group names in a shared output_dir are an observation, not a violation (reading stated in DESIGN).', technique='Coq proof by induction over run histories + file-system correspondence', ref='7 C17'),
+ 'C18': dict(text='Proof (Coq), partial + correspondence: joining the statements with ".\\n" and a final "." gives a document whose lines are exactly the statements (document_lines_are_statements, load_per_statement, empty_result_loads_nothing); '
+    'the quads held by materialize_oxigraph and by the store behind materialize, blank-node identity included, are compared with the set on named-graph, RDF-star, blank-node and empty results.',
+    note='The loaders are third-party. Known findings: rdflib Graph hides named graphs; rdflib cannot parse RDF-star.', technique='Coq proof about the glue + differential check of loader contents', ref='7 C18'),
+ 'C19': dict(text='Proof (Coq) over the REGENERATED option tables + correspondence: absent / empty options take their defaults (absent_or_empty_takes_default, absent_takes_default, empty_partitioning_takes_default), enumerated options accept exactly the documented values case-insensitively '
+    '(enum_accepts_iff, enum_stored_upper); ~450 INI texts (string and file) read back through every getter against Model/Config.v; option effects end to end; file_path; missing mapping path.',
+    note='Two genuine defects repaired (fix: 94fd825, 5381a3d). ConfigParser syntax / interpolation not modelled.', technique='Coq proof over regenerated tables + differential correspondence of the configuration getters', ref='7 C19'),
+})
 NOT_YET = {}
 
 def main():
